@@ -16,6 +16,7 @@ func init() {
 				{Harness: "c08.liveness", Mode: "plain", Shards: 4, GC: "on"},
 				{Harness: "c08.windows", Mode: "plain", Shards: 2, GC: "on"},
 				{Harness: "c08.dag", Mode: "plain", Shards: 8, GC: "on", MaxRSS: 3072},
+				{Harness: "c08.guard", Mode: "plain", Shards: 4, GC: "on"},
 			}
 		},
 	})
